@@ -67,11 +67,20 @@ def config_lines(sr, cfg):
         sr.do('fs L0 mem')
         sr.do('fs L1 mem')
         sr.do('fs R ovl L0 L1')
+    elif cfg == 'ovl3':
+        # three layers; the file lives in both read-only layers with different bytes: layer 1 shadows layer 2
+        sr.do('fs L0 mem')
+        sr.do('fs L1 mem')
+        sr.do('fs L2 mem')
+        sr.do('join deepf L2 %s' % hx(b'f'))
+        sr.syms['deep'] = sym_content(ex, 1, 'deep')
+        sr.do('write deepf $deep')
+        sr.do('fs R ovl L0 L1 L2')
     else:
         raise ValueError(cfg)
     sr.do('join f R %s' % hx(b'f'))
     sr.do('join g R %s' % hx(b'g'))
-    if cfg == 'ovl_lower':
+    if cfg in ('ovl_lower', 'ovl3'):
         sr.do('join lf L1 %s' % hx(b'f'))
         return 'lf'
     return 'f'
@@ -235,6 +244,8 @@ def run_writer_case(prog, params):
             if sr.do('write %s $pre' % target) != 'ok':
                 raise Unmodelled('writer set-up failed')
             cur = tuple(sr.syms['pre'])
+        elif cfg == 'ovl3':
+            cur = tuple(sr.syms['deep'])          # nothing in layer 1: the view shows the bottom layer's file
         tag = '%s|writer' % cfg
         for si, mode in enumerate(modes):
             out = sr.do('hopen w%d f %s' % (si, mode))
@@ -312,6 +323,19 @@ def run_writer_case(prog, params):
                 return findings
         # transfers
         xfer = params['xfer'] if params.get('xfer') is not None else ex.choose(3, 'xfer')
+        if params.get('alias_copy') and cur is not None and cfg in ('ovl_lower', 'ovl3'):
+            # copy the overlay's view of f (served by a lower layer or by the upper copy) onto the same relative path
+            # addressed directly in the upper layer: afterwards both names hold the bytes of the view
+            sr.do('join uf L0 %s' % hx(b'f'))
+            sr.do('exists uf')
+            if sr.last.ok and sr.last.value is False:
+                sr.do('copy_file f uf')
+                if sr.last.ok:
+                    if not check_content(sr, ex, 'uf', cur, findings, prop, tag + '|alias_copy_dest'):
+                        return findings
+                    if not check_content(sr, ex, 'f', cur, findings, prop, tag + '|alias_copy_view'):
+                        return findings
+            return findings
         if xfer and cur is not None:
             op = ['copy_file', 'move_file'][xfer - 1]
             sr.do('%s f g' % op)
@@ -438,6 +462,21 @@ def run_lifecycle_case(prog, params):
                 if vis:
                     findings.append(make_finding('C10', '%s|late_flush_after_removal|%s|visible_through:%s' % (cfg, mode, '+'.join(vis)),
                                                  'after `%s` the removed file is visible again through %s once the old %s handle is flushed/dropped' % ('; '.join(steps), ', '.join(vis), mode), sr))
+        if 'C05' in params.get('props', ()) and not findings:
+            # whatever the old handle did to the path: the observers must tell one story about it
+            ex_, md, rd, ls = seen.get('exists'), seen.get('metadata'), seen.get('read'), seen.get('read_dir')
+            if ex_ is not None and md is not None and rd is not None and ex_.ok:
+                key5 = '%s|handle_after_removal|%s|how=%d' % (cfg, mode, how)
+                if ex_.value is False and (md.ok or rd.ok):
+                    findings.append(make_finding('C05', key5 + '|absent_but_%s' % ('metadata' if md.ok else 'readable'),
+                                                 'exists() is false, but %s succeeds on the same path' % ('metadata' if md.ok else 'open_file+read'), sr))
+                elif ex_.value is True and not md.ok and md.tag == 'err':
+                    findings.append(make_finding('C05', key5 + '|exists_without_metadata', 'exists() is true, but metadata fails', sr))
+                elif ls is not None and ls.ok:
+                    mine = sr.w.as_str(sr.paths['df'])
+                    listed = any(S(x).is_concrete() and bytes(x) == bytes(mine) for x in ls.value)
+                    if listed != (ex_.value is True):
+                        findings.append(make_finding('C05', key5 + '|listing_vs_exists', 'exists() is %s, but the parent %s the name' % (ex_.value, 'lists' if listed else 'does not list'), sr))
         if not res.samples:
             res.samples.append({'config': cfg, 'script': [l for l, _ in sr.log][-8:]})
         return findings
